@@ -22,10 +22,11 @@ from gen import c03gen as G
 ID = "C03"
 PROPS = ["IsoVerif/Props/C03.lean", "IsoVerif/Props/C03Hist.lean", "IsoVerif/Props/C03Build.lean",
          "IsoVerif/Props/C03Merge.lean", "IsoVerif/Props/C03Whole.lean", "IsoVerif/Props/C03Paths.lean",
-         "IsoVerif/Props/C03Text.lean", "IsoVerif/Props/C03TextOrder.lean", "IsoVerif/Props/C03Ref.lean"]
+         "IsoVerif/Props/C03Text.lean", "IsoVerif/Props/C03TextOrder.lean", "IsoVerif/Props/C03Ref.lean",
+         "IsoVerif/Props/C03Check.lean"]
 TARGETS = ["IsoVerif.Props.C03", "IsoVerif.Props.C03Hist", "IsoVerif.Props.C03Build", "IsoVerif.Props.C03Merge",
            "IsoVerif.Props.C03Whole", "IsoVerif.Props.C03Paths", "IsoVerif.Props.C03Text", "IsoVerif.Props.C03TextOrder",
-           "IsoVerif.Props.C03Ref"]
+           "IsoVerif.Props.C03Ref", "IsoVerif.Props.C03Check"]
 GEN_DEPS = ["Prims", "Enums", "Constants", "Strategies", "ModelConstruction", "GtfFormat"]
 LEVEL = "proof"
 RULE = ("dump call histories: exhaustive universe (every single call of <=2 models from a 12-model pool x 2 contexts, "
@@ -48,7 +49,11 @@ ASSUMPTIONS = ["assumption interface of the unmodelled intron graph (monitored o
                "disjoint exons; exons lie within the chromosome",
                "transcript ids handed to one printer are pairwise distinct (id distributor / detected_known_isoforms; C17)",
                "all models attributed to one gene carry the gene's strand (select_reference_gene / TranscriptToGeneJoiner)",
-               "the input annotation is itself well-formed (gene records contain their transcripts, exons sorted and disjoint)",
+               "the input annotation is itself well-formed as far as gene records go (they contain their transcripts); that the exon "
+               "records of a reference transcript are sorted and pairwise disjoint is no longer assumed: the input check guarantees it "
+               "(Model/GtfCheck.lean, Props/C03Check.lean: checked_exons_sd, checked_reference_models_sd; correspondence exon_check on "
+               "the real check_gtf_duplicates, GTF and GFF3) - it holds for runs that use the check (a run with --no_gtf_check or a "
+               "pre-built .db vouches for the annotation itself)",
                "reading rule docs/C03.md 10.3: 'every reference transcript' = transcript records with >= 1 exon record, passing the "
                "gate, on a sequence of the reference FASTA, of a gene whose gene_id is used on one sequence - provided the log names "
                "what is left out (props/C03ref.py checks exactly that; a silent omission or an abort is a failure)"]
@@ -1366,7 +1371,7 @@ def replay(ctx, failure):
     if lvl == "text":
         from props import C03text
         return C03text.replay(ctx, failure)
-    if lvl in ("refjoin", "refpipeline"):
+    if lvl in ("refjoin", "refpipeline", "refcheck"):
         from props import C03ref
         return C03ref.replay(ctx, failure)
     if lvl == "history":
